@@ -315,3 +315,84 @@ class argument_types:
 
 
 CONTRACTS = [check_settings, validation_precedes_parsing, try_parser_escape, argument_types]
+
+
+class parse_chain_first_valid:
+    """_DateLocaleParser._parse (C02: "date_obj and locale are both None when nothing was
+    recognised"; the parser chain is configurable through PARSERS): for every PARSERS list (every
+    non-empty ordered selection of up to 3 of the 6 parser names in the thorough tier, a fixed family
+    in the quick tier) and every combination of per-parser outcomes - a recognised DateData, the
+    truthy DateData(date_obj=None) the timestamp/relative/custom-format parsers return on failure,
+    or None - the result is the first recognised outcome in list order, and None (not a DateData
+    with date_obj None) when no parser recognised anything.  The six parser methods are replaced by
+    ghost outcomes; `_parse` and `_is_valid_date_data` are the real code."""
+
+    name = "date._DateLocaleParser._parse/first-valid-or-None"
+    func = "dateparser.date._DateLocaleParser._parse"
+    props = ["C02", "C13"]
+    NAMES = ["timestamp", "negative-timestamp", "relative-time", "custom-formats", "absolute-time",
+             "no-spaces-time"]
+
+    @classmethod
+    def cases(cls, thorough=False):
+        import itertools
+
+        if thorough:
+            lists = [list(p) for n in (1, 2, 3) for p in itertools.permutations(cls.NAMES, n)]
+        else:
+            lists = [["timestamp", "relative-time", "custom-formats", "absolute-time"],
+                     ["absolute-time", "timestamp"], ["absolute-time", "relative-time"],
+                     ["custom-formats"], ["absolute-time", "custom-formats"], ["relative-time"],
+                     ["negative-timestamp"], ["no-spaces-time", "negative-timestamp"],
+                     ["absolute-time"], ["timestamp", "absolute-time", "relative-time"]]
+        return [dict(PARSERS=ps) for ps in lists]
+
+    @staticmethod
+    def setup(inp, case):
+        from dateparser.date import DateData, _DateLocaleParser
+        from pyvc.harness import make_settings
+
+        st = make_settings(PARSERS=list(case["PARSERS"]))
+        inst = _DateLocaleParser.__new__(_DateLocaleParser)
+        inst._settings = st
+        inst.locale = Locale0()
+        inst.date_string = "x"
+        inst.date_formats = None
+        when = _dt.datetime(2020, 1, 2, 3, 4)
+        outcomes, ghosts = {}, {}
+        for k, name in enumerate(parse_chain_first_valid.NAMES):
+            kind = inp.int("o%d" % k, 0, 2)  # 0 recognised, 1 DateData(None), 2 None
+            ghosts[name] = kind
+            good = DateData(date_obj=when + _dt.timedelta(days=k), period="day")
+            empty = DateData(date_obj=None, period="day")
+
+            def stub(kind=kind, good=good, empty=empty):
+                if kind == 0:
+                    return good
+                if kind == 1:
+                    return empty
+                return None
+
+            outcomes[name] = (stub, good)
+        inst._parsers = {n: outcomes[n][0] for n in outcomes}
+        return inst._parse, (), {}, dict(kinds=ghosts, goods={n: outcomes[n][1] for n in outcomes})
+
+    @staticmethod
+    def post(case, g, out):
+        if not out.ok:
+            return {"no-exception": False}
+        r = out.value
+        kinds, goods = g["kinds"], g["goods"]
+        # the expected result, by list order
+        none_before = True
+        conds = []
+        for name in case["PARSERS"]:
+            hit = And(none_before, kinds[name] == 0)
+            conds.append(Implies(hit, r is goods[name]))
+            none_before = And(none_before, kinds[name] != 0)
+        return {"no-exception": True,
+                "first-recognised-outcome-in-PARSERS-order": And(*conds),
+                "nothing-recognised=>None": Implies(none_before, r is None)}
+
+
+CONTRACTS += [parse_chain_first_valid]
